@@ -8,8 +8,8 @@ MANIFEST = dict(
     category="proof",
     text="Contracts on the real sample conversion helpers opn2_cvtS16/U16/S8/U8/S24/U24/S32/U32/Real<float|double> (extracted from opnmidi_private.hpp): each equals the documented formula for all 2^32 inputs, no signed overflow. Contract on the real SendStereoAudio (extracted): refuses exactly the undocumented type/container pairs, otherwise performs exactly one copy of min(requested - position, 2*available)/2 frames starting at frame position/2 with the requested stride into containers of the requested size; the six CopySamples instantiations are replaced by contracts that check those arguments.",
     design_ref="DESIGN.md C13",
-    level_note="opn2_generateFormat (extracted, loop contract): if it returns, the result is the request rounded down to even (0 for negative counts, NULL device or a refused format), every SendStereoAudio call satisfies that function's precondition, at most 512 frames go through the 1024-element mix buffer, the carry stays a fraction - PARTIAL correctness, termination not proved. Not covered: the per-byte frame of CopySamplesRaw/Transformed themselves, opn2_playFormat, end-of-song behaviour. Trusted: extraction rules incl. template monomorphisation (R6), CBMC float semantics for the two Real conversions.",
-    technique="CBMC code contracts (DFCC) on mechanically extracted inline functions")
+    level_note="opn2_generateFormat and opn2_playFormat (extracted, loop contract on the period loop, 1..4 chips): if the call returns, generateFormat reports the request rounded down to even (0 for negative counts, NULL device or a refused format) and playFormat an even count not above that, short only when the sequencer reported the end of the song (ghost) or the format was refused; the reported count is exactly twice the frames handed to SendStereoAudio, each period is stored directly behind the previous one, every SendStereoAudio call satisfies the precondition the SendStereoAudio group assumes, at most 512 frames go through the 1024-element mix buffer, the timing state (carry, delay, skip count) keeps its invariant - PARTIAL correctness, termination not proved. Not covered: the per-byte frame of CopySamplesRaw/Transformed themselves (argument-checking contracts only), opn2_generate/opn2_play wrappers (one call each), the chips' output values. Trusted: extraction rules incl. template monomorphisation (R6), CBMC float semantics for the two Real conversions and the period arithmetic, memset model.",
+    technique="CBMC code contracts (DFCC) with loop contracts on mechanically extracted functions")
 TRUSTED = ["extraction rules of vlib/cxx2c.py (R1, R2, R6 template monomorphisation)", "assumed contracts at the call sites of the CopySamples instantiations (argument check + ghost record); their bodies are not under proof"]
 ASSUMPTIONS = ["SendStereoAudio group: called with an even non-negative request, an even position inside it and at most 512 generated frames - no longer assumed: it is the REQUIRES of the SendStereoAudio stub that both callers (generate_format_contract, play_format_contract) are checked against at the call site",
                "opn2_generateFormat / opn2_playFormat: PARTIAL correctness (termination of the period loop is not proved: progress depends on floating-point accumulation and on the sequencer)",
